@@ -164,7 +164,12 @@ def fix(
         if num_unfiltered_errors > 0:
             should_fix = False
     if should_fix:
-        sql = result.paths[0].files[0].fix_string()[0]
+        linted_file = result.paths[0].files[0]
+        # NOTE: With `fix_even_unparsable`, a *fatal* templating or parsing
+        # error still leaves us without a templated file or parse tree to
+        # build the fixed string from. There's nothing to fix in that case.
+        if linted_file.templated_file and linted_file.tree:
+            sql = linted_file.fix_string()[0]
     return sql
 
 
